@@ -60,6 +60,12 @@ def _slot_effects(spec, ex, st, names, t, b, i_term, occ0, occ1, k0, k1, v1_some
     st.ghost[sb] = z3.Store(slotb, t, z3.If(ins, z3.Store(sbt, k1, b.term()), sbt))
     sit = z3.Select(sloti, t)
     st.ghost[si] = z3.Store(sloti, t, z3.If(ins, z3.Store(sit, k1, i_term), sit))
+    if 'occ' in spec.ghost_decl:
+        # occ[t]: number of occupied slots in the buckets owned by table t (by definition: it follows the transitions)
+        occ = gh(spec, ex, st, 'occ')
+        cur = z3.Select(occ, t)
+        one = z3.BitVecVal(1, 64)
+        st.ghost['occ'] = z3.Store(occ, t, z3.If(ins, cur + one, z3.If(dele, cur - one, cur)))
 
 
 def map_store(spec, ex, st, fname, p, newval):
